@@ -448,10 +448,7 @@ class C13(F.PropCheck):
                 if post_keep is not None and 'CFG' in d and d['CFG'] != post_keep:
                     v.append('configuration in RAM changed although the request saved nothing')
                 post_keep = None
-                if fact is not None and 'CFG' in d:
-                    if fact[0] and fcn != d['CFG']: v.append('factory reset wrote the configuration sector successfully but it does not hold the reset record')
-                    elif fact[1] and fsn != d.get('STATE'): v.append('factory reset wrote the state sector successfully but it does not hold the reset state')
-                fact = None
+                fact = None      # (what factory_defaults hands to the save is not observable: no sector-vs-RAM clause for it)
                 if 'CFG' in d: ram_cfg = d['CFG']; ram_sta = d.get('STATE')
                 flashc, flashs = fcn, fsn
                 continue
